@@ -147,6 +147,29 @@ def test_larc(lh, rng, quick, mod, method):
     s.add("every ring position once", mod, method, [C(p, lo + p % (hi - lo + 1)) for p in range(ring)])
     s.add("only copies of the region just written", mod, method,
           [L(b) for b in range(64)] + [C((start + i * 3) % ring, hi) for i in range(500)])
+    # overlap x ring seam: copies whose source lies d bytes behind the write position (d around the copy length, so that the source
+    # runs into the bytes being written by 0, 1, 2 ... bytes) and begins k bytes before the end of the ring, for every k: the two
+    # features each have their own code path (wrap-around of the source, byte-by-byte semantics of overlapping copies)
+    for n in sorted(set([lo, lo + 1, (lo + hi) // 2, hi - 1, hi])):
+        cm = []
+        w = start
+        for d in sorted(set([1, 2, n - 1, n, n + 1]) - set([0, -1])):
+            for k in range(0, n + 2):
+                src = (ring - k) % ring
+                target = (src + d) % ring
+                gap = (target - w) % ring
+                while gap >= hi:
+                    cm.append(C((w - 1) % ring, hi))
+                    w = (w + hi) % ring
+                    gap -= hi
+                for _ in range(gap):
+                    cm.append(L((w * 7 + k) & 0xFF))
+                    w = (w + 1) % ring
+                cm.append(C(src, n))
+                w = (w + n) % ring
+                cm.append(L((k * 31 + d) & 0xFF))
+                w = (w + 1) % ring
+        s.add("overlap x ring seam, length %d" % n, mod, method, cm)
     for n in range(1, 18):
         cm = mod.random_cmds(rng, method, n)
         s.add("tail group of %d" % n, mod, method, cm)
